@@ -135,10 +135,12 @@ impl SauceData {
 
         let mut date_string = String::from_utf8_lossy(&data[o..(o + 8)]).to_string();
         date_string.push_str("000000"); // otherwise the datetime parser will fail, it needs full info
-        let date_time = match NaiveDateTime::parse_from_str(&date_string, "%Y%m%d%H%M%S") {
-            Ok(d) => d,
-            Err(err) => return Err(SauceError::UnsupportedSauceDate(err.to_string()).into()),
-        };
+        // the date is optional ("filled with spaces when not used") and often wrong in the wild: an unreadable date
+        // must not make the whole record unreadable, otherwise the record is rendered as part of the picture
+        let date_time = NaiveDateTime::parse_from_str(&date_string, "%Y%m%d%H%M%S").unwrap_or_else(|err| {
+            log::warn!("unreadable SAUCE date {date_string:?}: {err}");
+            NaiveDateTime::default()
+        });
         o += 8;
 
         // skip file_size - we can calculate it, better than to rely on random 3rd party software.
